@@ -16,6 +16,8 @@ NA = {
     "C02": "round-trip equality of encoder and decoder outputs over all payloads is a law about runtime values; no clause of it is a dominance / who-may-call / table-agreement fact that a realistic regression would break (DESIGN.md section 5); static analysis does not apply",
     "C04": "match(build(v)) == v over converter value spaces is an identity between two runtime computations (to_url + quoting + compiled builder vs. regex matching + to_python); nothing of it is visible in the shape of the code (DESIGN.md section 5); static analysis does not apply",
 }
+# properties whose rule module I have reviewed and accepted (a module that merely exists is not claimed)
+READY = ["C06", "C08", "C09", "C13", "C16"]
 PENDING = "check not built yet in this session (planned in DESIGN.md section 4); not claimed until it exists"
 
 TECH = {
@@ -51,7 +53,7 @@ def main() -> None:
             na.append({"property_id": pid, "reason": NA[pid]})
             continue
         f = V / "wzsa" / "rules" / f"{pid.lower()}.py"
-        if not f.exists():
+        if not f.exists() or pid not in READY:
             na.append({"property_id": pid, "reason": PENDING})
             continue
         mod = importlib.import_module(f"wzsa.rules.{pid.lower()}")
